@@ -189,6 +189,17 @@ def gen_case(rng, tier, i=None):
         if site == 'match':
             expr = r['match'] if injected else bad
             r['match'] = expr
+            if forced and forced[1] not in ('binds-then-fails', 'too-deep', 'disallowed-syntax') and len(BY_CLASS[forced[1]]) > 1:
+                # the other members of the class too, as further rules of their own: what a handler does with one failure
+                # (its type, its message, its arguments) it must be able to do with each of them
+                others = [e_ for e_ in BY_CLASS[forced[1]] if e_ != expr]
+                rng.shuffle(others)
+                case['more_exprs'] = others[:3]
+                for n_, e_ in enumerate(case['more_exprs']):
+                    m['rules'].insert(rng.randint(0, len(m['rules'])), {
+                        'name': 'Also Failing %d' % n_, 'match': e_, 'category': 'Misc', 'subcategory': 'Other', 'merchant': '', 'tags': [],
+                        'priority': None, 'lets': [], 'fields': []})
+                k = m['rules'].index(r)
             if expr in BINDING_TXN:
                 # the failing rule goes first; rules after it read the names it bound before failing
                 m['rules'].remove(r)
@@ -548,7 +559,7 @@ def execute(case, scratch):
                         failing.add(case['expr'])
                         classes.add('ExpressionError(injected)')
                 else:
-                    cand = [case['expr']]
+                    cand = [case['expr']] + list(case.get('more_exprs') or [])
                     for e in cand:
                         kind = 'txn'
                         src = e
